@@ -278,8 +278,10 @@ class Excited(SubCheck):
         ns = case["exc"]["n_states"]
         exc = {"method": case["exc"]["method"], "n_states": ns, "tolerance": 1e-8, "compute_transition_properties": True}
         extra = {"excited_states": exc, "active_state": 1, "scf_backward": 0}
-        if case["exc"]["method"] == "cis":
-            extra["nac"] = {"enabled": True}
+        if case["exc"]["method"] == "cis" and ns >= 2:
+            # NAC vectors are switched on through seqm_parameters['nonadiabatic']['compute_nac'] (dynamics/nac_utils.py).
+            # (The first version of this check set a key the code does not read, so the NAC clause silently never ran.)
+            extra["nonadiabatic"] = {"compute_nac": True}
         try:
             a = _run(case, x0, Z, extra={k: (dict(v) if isinstance(v, dict) else v) for k, v in extra.items()})
             b = _run(case, x1, Z, extra={k: (dict(v) if isinstance(v, dict) else v) for k, v in extra.items()})
@@ -314,7 +316,10 @@ class Excited(SubCheck):
                 if d > 1e-5:
                     return Outcome.fail(bucket_for("osc_strength", method, Z, [x0, x1]), f"oscillator strengths differ by {d:.3e}", labels, True, osc=d)
         na, nb = getattr(a.mol, "nac", None), getattr(b.mol, "nac", None)
+        if "nonadiabatic" in extra and not (isinstance(na, dict) and isinstance(nb, dict)):
+            return Outcome.fail("nac_requested_but_not_returned", "compute_nac was requested but molecule.nac is not a dict", labels, True)
         if isinstance(na, dict) and isinstance(nb, dict):
+            labels.append("nac_compared")
             for key in na:
                 i, j = key
                 if i >= k or j >= k:
